@@ -51,7 +51,7 @@ func init() {
 		order := append(seq(2, k), 1)
 		dual(g, m, k, k, "first-argument-last", both, func(s scheme) (string, string, string, string) {
 			return s.defCurried("c", k, "[]int", s.ints(1, k, s.arg)),
-				fmt.Sprintf("var fl %s = curried.%s(c)", s.curriedTyOrder(order, "[]int"), m.Name), "fl" + curriedCall(s, order), "v"
+				fmt.Sprintf("var fl %s = curried.%s(c)", s.curriedTyOrder(order, "[]int"), m.Name), curriedApply("fl", s, order), "v"
 		})
 	})
 	// FlipApply(N)(c, a2..aK)(a1) = c(a1)..(aK), K = N+1
@@ -82,7 +82,7 @@ func init() {
 		order := append([]int{k}, seq(1, k-1)...)
 		dual(g, m, k, k, "last-argument-first", both, func(s scheme) (string, string, string, string) {
 			return s.defCurried("c", k, "[]int", s.ints(1, k, s.arg)),
-				fmt.Sprintf("var sl %s = curried.%s(c)", s.curriedTyOrder(order, "[]int"), m.Name), "sl" + curriedCall(s, order), "v"
+				fmt.Sprintf("var sl %s = curried.%s(c)", s.curriedTyOrder(order, "[]int"), m.Name), curriedApply("sl", s, order), "v"
 		})
 	})
 	// ComposeN(c, g)(a1)..(aN) = g(c(a1)..(aN))
@@ -97,7 +97,7 @@ func init() {
 		}
 		dual(g, m, k, k, "post-composition", both, func(s scheme) (string, string, string, string) {
 			return s.defCurried("c", k, "[]int", s.ints(1, k, s.arg)) + "\t\tpost := func(xs []int) [1][]int { return [1][]int{cat([]int{-7}, xs)} }\n",
-				fmt.Sprintf("var cc %s = curried.%s(c, post)", s.curriedTy(1, k, "[1][]int"), m.Name), "cc" + curriedCall(s, seq(1, k)) + "[0]", "cat([]int{-7}, v)"
+				fmt.Sprintf("var cc %s = curried.%s(c, post)", s.curriedTy(1, k, "[1][]int"), m.Name), curriedApply("cc", s, seq(1, k)) + "[0]", "cat([]int{-7}, v)"
 		})
 	})
 
